@@ -61,7 +61,8 @@ fn table() -> Vec<Entry> {
         plane("omerc lonc=12 latc=55 alpha=30 gamma_c=30 k_0=0.9999", vec![geo(12., 55., 100., 2020.5), geo(13., 54., 0., 2000.)], vec![], vec![]),
         plane("somerc lat_0=46.9524055555556 lon_0=7.43958333333333 k_0=1 x_0=2600000 y_0=1200000", vec![geo(8., 47., 400., 2020.5), geo(6.5, 46.1, 0., 2000.)], vec![], vec![]),
         Entry { def: "cart", writes: xyz, deps: [0b011, 0b111, 0b111, 0], deps_inv: Some([0b111, 0b111, 0b110, 0]), inside: inside_geo.clone(), outside_fwd: vec![], outside_inv: vec![], invertible: true },
-        Entry { def: "cart inv", writes: xyz, deps: [0b111, 0b111, 0b110, 0], deps_inv: Some([0b011, 0b111, 0b111, 0]), inside: inside_geo.iter().map(cart).collect(), outside_fwd: vec![], outside_inv: vec![], invertible: true },
+        // (with a point on the polar axis, where the conversion takes a branch of its own)
+        Entry { def: "cart inv", writes: xyz, deps: [0b111, 0b111, 0b110, 0], deps_inv: Some([0b011, 0b111, 0b111, 0]), inside: inside_geo.iter().map(cart).chain([[0., 0., 6356852.3, 2020.5], [0., 0., -6356752.3, 2000.]]).collect(), outside_fwd: vec![], outside_inv: vec![], invertible: true },
         Entry { def: "helmert x=-87 y=-96 z=-120", writes: xyz, deps: [0b001, 0b010, 0b100, 0], deps_inv: None, inside: inside_geo.iter().map(cart).collect(), outside_fwd: vec![], outside_inv: vec![], invertible: true },
         Entry { def: "helmert x=1 rx=1 ry=2 rz=3 s=1 convention=position_vector", writes: xyz, deps: [0b111, 0b111, 0b111, 0], deps_inv: None, inside: inside_geo.iter().map(cart).collect(), outside_fwd: vec![], outside_inv: vec![], invertible: true },
         Entry { def: "helmert x=1 dx=0.01 dy=0.02 dz=0.03 t_epoch=2000", writes: xyz, deps: [0b001, 0b010, 0b100, 0b111], deps_inv: None, inside: inside_geo.iter().map(cart).collect(), outside_fwd: vec![], outside_inv: vec![], invertible: true },
